@@ -58,7 +58,12 @@ func parseAST(s string) any {
 	return astVL(e)
 }
 
-var c10Names = []string{"FOO", "BAR", "Baz", "foo", "PATH", "A", "B", "C", "HOME", "X_1", "unset"}
+var c10NamesASCII = []string{"FOO", "BAR", "Baz", "foo", "PATH", "A", "B", "C", "HOME", "X_1", "unset"}
+
+// names whose case folding needs more than ASCII (the same variable under a case-insensitive environment)
+var c10NamesUnicode = []string{"GRöSSE", "GRÖSSE", "grösse", "Ünit", "ÜNIT", "FOO", "foo", "A", "PATH"}
+
+var c10Names = c10NamesASCII
 
 func c10Str(r *core.Rand) string {
 	v := func() string { return core.Pick(r, c10Names) }
@@ -136,6 +141,12 @@ func runC10(c *ctx) error {
 	for i := 0; i < n; i++ {
 		upper := rng.Intn(2) == 0
 		prefer := rng.Intn(2) == 0
+		c10Names = c10NamesASCII
+		nonASCII := i%8 == 5
+		if nonASCII {
+			c10Names = c10NamesUnicode
+			c.res.Hist("names.non-ascii-case-folding")
+		}
 		// runtime env
 		runtime := map[string]string{}
 		for _, nm := range c10Names {
@@ -258,7 +269,11 @@ func runC10(c *ctx) error {
 			}
 		}
 		req := "envblock " + vl.Enc(normName) + " " + vl.Enc(prefer) + " " + vl.Enc(envV) + " " + vl.Enc(blockV) + " " + vl.Enc(tbl) + " " + vl.Enc(strs2any(probes))
-		sess.Add(vl.Escape(req), vl.Escape(got))
+		if !nonASCII {
+			// (the Lean driver folds case for ASCII letters only; blocks over names that need Unicode case folding are
+			// judged by the list-of-pairs oracle below, whose environment folds with strings.ToUpper)
+			sess.Add(vl.Escape(req), vl.Escape(got))
+		}
 
 		// ---- direct oracle: top to bottom with the real library ----
 		c.res.OracleChecks++
